@@ -22,6 +22,9 @@ type mapLoop struct {
 	key    ssa.Value // Extract #1 (may be nil)
 	val    ssa.Value // Extract #2 (may be nil)
 	region map[*ssa.BasicBlock]bool
+	// carriedAddr: the field that carries the text from one iteration to the next when it is
+	// kept in the receiver's state instead of a local variable (DEF-FRAGMENT)
+	carriedAddr *ssa.FieldAddr
 }
 
 func isMapType(t types.Type) bool {
@@ -203,7 +206,9 @@ func (c *Ctx) RuleMapOrder() *Result {
 				}
 				// outside the fragment the special argument does not apply: judge the loop like any other
 				if v, d := c.classifyMapLoop(l); v == Violated {
-					res.bad(key, pos, d+" (the definition-expansion fragment of DEF-FRAGMENT does not apply: "+st+")")
+					// the general classification cannot see that the substitution is order independent; that it
+					// is not recognised as the fragment either is a gap of the recogniser, not a finding
+					res.undecided(key, pos, d+" (and the definition-expansion fragment of DEF-FRAGMENT, whose order independence is argued separately, is not recognised here: "+st+")")
 				} else if v == Discharged {
 					res.ok(key, pos, d)
 				} else {
@@ -384,6 +389,11 @@ func dependsOnCarried(v ssa.Value, l *mapLoop) bool {
 		if p, ok := v.(*ssa.Phi); ok && p.Block() == l.header {
 			return true
 		}
+		if u, ok := v.(*ssa.UnOp); ok && u.Op == token.MUL && l.carriedAddr != nil && l.region[u.Block()] {
+			if fa, ok := u.X.(*ssa.FieldAddr); ok && fa.Field == l.carriedAddr.Field && fa.X == l.carriedAddr.X {
+				return true
+			}
+		}
 		in, ok := v.(ssa.Instruction)
 		if !ok {
 			return false
@@ -543,6 +553,28 @@ func (c *Ctx) sortedBeforeUse(s ssa.Value, l *mapLoop, depth int) string {
 				}
 			}
 		}
+		// handed back to the callers (a helper that only collects): every caller sorts what it gets
+		if ret, isRet := u.in.(*ssa.Return); isRet {
+			fn := ret.Parent()
+			n, why := 0, ""
+			for _, e := range c.Graph().In[fn] {
+				cc := callCommon(e.Site)
+				cv, isVal := e.Site.(ssa.Value)
+				if cc == nil || staticFn(cc) != fn || !isVal {
+					continue
+				}
+				n++
+				if w := c.sortedBeforeUse(cv, nil, depth+1); w != "" {
+					why = w + " (in " + load.FnName(e.Caller) + ")"
+				}
+			}
+			if n > 0 && why == "" {
+				continue
+			}
+			if why != "" {
+				return why
+			}
+		}
 		return fmt.Sprintf("%s at %s without a dominating sort", u.kind, c.P.InstrPos(u.in))
 	}
 	return ""
@@ -682,10 +714,73 @@ func (c *Ctx) checkDefFragment(fn *ssa.Function, loops []*mapLoop) string {
 			last = l
 		}
 	}
-	if outer.rng.X != inner.rng.X || outer.rng.X != last.rng.X {
+	// the same map: one value, or loads of one field of one struct that nothing in the function assigns
+	// (and no function of the repository is called that could)
+	sameMap := func(a, b ssa.Value) bool {
+		if a == b {
+			return true
+		}
+		ua, ok := a.(*ssa.UnOp)
+		if !ok || !sameLoad(a, b) {
+			return false
+		}
+		fa, ok := ua.X.(*ssa.FieldAddr)
+		if !ok {
+			return false
+		}
+		if _, isPar := fa.X.(*ssa.Parameter); !isPar {
+			return false
+		}
+		stable := true
+		allInstrs(fn, func(in ssa.Instruction) {
+			switch x := in.(type) {
+			case *ssa.Store:
+				if f2, ok := x.Addr.(*ssa.FieldAddr); ok && f2.Field == fa.Field && types.Identical(f2.X.Type(), fa.X.Type()) {
+					stable = false
+				}
+			case *ssa.Call:
+				if lm0 := c.Loud(); lm0.IsLoud(in) || isLogCall(x) || pureCall(x) {
+					return
+				}
+				if _, isNeedle := needleKey(x); isNeedle {
+					return
+				}
+				if sf := staticFn(&x.Call); (sf != nil && c.P.IsRepoFn(sf)) || (sf == nil && staticCallee(&x.Call) == nil && x.Call.Value != nil) {
+					if _, isBuiltin := x.Call.Value.(*ssa.Builtin); !isBuiltin {
+						stable = false
+					}
+				}
+			}
+		})
+		return stable
+	}
+	if !sameMap(outer.rng.X, inner.rng.X) || !sameMap(outer.rng.X, last.rng.X) {
 		return "the three loops do not range over the same map value"
 	}
 	V := outer.rng.X
+	// the text may be carried in a field of the same struct instead of a local variable: the one store in
+	// the substitution loop
+	for b := range last.region {
+		for _, in := range b.Instrs {
+			st, ok := in.(*ssa.Store)
+			if !ok {
+				continue
+			}
+			fa, ok := st.Addr.(*ssa.FieldAddr)
+			if !ok || last.carriedAddr != nil {
+				return fmt.Sprintf("%T inside the fragment at %s", in, c.P.InstrPos(in))
+			}
+			if _, isPar := fa.X.(*ssa.Parameter); !isPar {
+				return fmt.Sprintf("%T inside the fragment at %s", in, c.P.InstrPos(in))
+			}
+			if vu, ok := V.(*ssa.UnOp); ok {
+				if vf, ok := vu.X.(*ssa.FieldAddr); ok && vf.Field == fa.Field && types.Identical(vf.X.Type(), fa.X.Type()) {
+					return "the substitution loop assigns the map it ranges over"
+				}
+			}
+			last.carriedAddr = fa
+		}
+	}
 	// no loop other than the three map iterations (a repeat-until-stable loop does not terminate on cyclic definitions)
 	for _, l := range naturalLoops(fn) {
 		if l.header != outer.header && l.header != inner.header && l.header != last.header && l.body[outer.header] {
@@ -711,7 +806,7 @@ func (c *Ctx) checkDefFragment(fn *ssa.Function, loops []*mapLoop) string {
 				if !inInner {
 					return "map update outside the inner loop at " + c.P.InstrPos(in)
 				}
-				if x.Map != V || x.Key != inner.key {
+				if !sameMap(x.Map, V) || x.Key != inner.key {
 					return "the inner loop updates something other than V[innerKey]"
 				}
 				call, ok := x.Value.(*ssa.Call)
@@ -723,7 +818,12 @@ func (c *Ctx) checkDefFragment(fn *ssa.Function, loops []*mapLoop) string {
 					return "the inner update is not ReplaceAll(innerValue, \"{{\"+outerKey+\"}}\", outerValue)"
 				}
 				updates++
-			case *ssa.Store, *ssa.Send, *ssa.Go, *ssa.Defer:
+			case *ssa.Store:
+				if last.carriedAddr != nil && x.Addr == ssa.Value(last.carriedAddr) && inLast {
+					continue
+				}
+				return fmt.Sprintf("%T inside the fragment at %s", in, c.P.InstrPos(in))
+			case *ssa.Send, *ssa.Go, *ssa.Defer:
 				return fmt.Sprintf("%T inside the fragment at %s", in, c.P.InstrPos(in))
 			case *ssa.Call:
 				if lm.IsLoud(in) || isLogCall(x) || pureCall(x) {
@@ -808,6 +908,18 @@ func (c *Ctx) checkDefFragment(fn *ssa.Function, loops []*mapLoop) string {
 			if !dependsOnCarried(call.Call.Args[0], last) {
 				return "the substitution loop does not substitute in the text carried from the previous iteration"
 			}
+			if last.carriedAddr != nil {
+				// what is stored back is that substitution
+				stored := false
+				for _, r := range referrers(last.carriedAddr) {
+					if st, ok := r.(*ssa.Store); ok && st.Addr == ssa.Value(last.carriedAddr) && derivesFrom(st.Val, call, 6) {
+						stored = true
+					}
+				}
+				if !stored {
+					return "the substitution loop does not keep the substituted text for the next iteration"
+				}
+			}
 			found++
 		}
 	}
@@ -834,6 +946,9 @@ func (c *Ctx) checkDefFragment(fn *ssa.Function, loops []*mapLoop) string {
 			}
 			n++
 		}
+	}
+	if last.carriedAddr != nil {
+		n++
 	}
 	if n != 1 {
 		return fmt.Sprintf("the substitution loop carries %d values instead of the text alone", n)
@@ -865,7 +980,13 @@ func (c *Ctx) checkDefFragment(fn *ssa.Function, loops []*mapLoop) string {
 					continue // a failure exit, not a way around the call
 				}
 				cond, _ := unwrapNot(iff.Cond)
-				if !isLenTestOfArg(cond, cc.Args) {
+				mapField := -1
+				if vu, ok := V.(*ssa.UnOp); ok {
+					if vf, ok := vu.X.(*ssa.FieldAddr); ok {
+						mapField = vf.Field
+					}
+				}
+				if !isLenTestOfArg(cond, cc.Args, mapField) {
 					return "VIOLATION: the expansion in " + load.FnName(e.Caller) + " is skipped under a condition other than 'no definitions' (" + c.P.InstrPos(iff) + "): references that the condition does not anticipate stay in the text as literal {{name}}"
 				}
 			}
@@ -915,7 +1036,7 @@ func (c *Ctx) reachesNormalReturn(b *ssa.BasicBlock) bool {
 
 // isLenTestOfArg: cond is len(X) compared with a constant, X one of the call's arguments
 // (the same value, or a load of the same field).
-func isLenTestOfArg(cond ssa.Value, args []ssa.Value) bool {
+func isLenTestOfArg(cond ssa.Value, args []ssa.Value, mapField int) bool {
 	b, ok := cond.(*ssa.BinOp)
 	if !ok {
 		return false
@@ -934,6 +1055,12 @@ func isLenTestOfArg(cond ssa.Value, args []ssa.Value) bool {
 	for _, a := range args {
 		if a == lenOp || sameLoad(a, lenOp) {
 			return true
+		}
+		// the map is a field of the struct that is handed over (the receiver of a method that expands its own state)
+		if u, ok := lenOp.(*ssa.UnOp); ok && u.Op == token.MUL {
+			if fa, ok := u.X.(*ssa.FieldAddr); ok && fa.X == a && fa.Field == mapField {
+				return true
+			}
 		}
 	}
 	return false
@@ -1044,6 +1171,16 @@ func (c *Ctx) RuleNondetSrc(commands []string) *Result {
 				if what == "" {
 					return
 				}
+				if call, ok := in.(*ssa.Call); ok {
+					if owner := c.flagRegistrationOnly(call, commands); owner != "" {
+						if !reported[in] {
+							reported[in] = true
+							res.Instances++
+							res.ok(load.FnName(fn)+":"+what, c.P.InstrPos(in), "the value flows only into the registration of a flag of command "+owner+", which is not one of the commands this rule is about: it is the flag's default (or help text) there and no other command parses that flag set")
+						}
+						return
+					}
+				}
 				n++
 				if reported[in] {
 					return
@@ -1062,6 +1199,179 @@ func (c *Ctx) RuleNondetSrc(commands []string) *Result {
 	return res
 }
 
+// flagRegistrationOnly: every use of the value of call ends (through method calls on it, conversions and
+// strconv/fmt formatting) as an argument of a registration method of the local flag set (Flags(), not
+// PersistentFlags()) of one command that runs and is none of the named ones. Returns that command's name.
+func (c *Ctx) flagRegistrationOnly(call *ssa.Call, commands []string) string {
+	owner := ""
+	ok := true
+	seen := map[ssa.Value]bool{}
+	var walk func(v ssa.Value, d int)
+	walk = func(v ssa.Value, d int) {
+		if !ok || seen[v] {
+			return
+		}
+		if d > 6 {
+			ok = false
+			return
+		}
+		seen[v] = true
+		refs := referrers(v)
+		uses := 0
+		for _, r := range refs {
+			switch x := r.(type) {
+			case *ssa.DebugRef:
+			case *ssa.ChangeType:
+				uses++
+				walk(x, d+1)
+			case *ssa.Convert:
+				uses++
+				walk(x, d+1)
+			case *ssa.Call:
+				uses++
+				f := staticCallee(&x.Call)
+				if f == nil {
+					ok = false
+					return
+				}
+				if objPkgPath(f) == "github.com/spf13/pflag" && recvNamed(f) == "FlagSet" {
+					// the registration: the flag set is Flags() of which command
+					if len(x.Call.Args) == 0 {
+						ok = false
+						return
+					}
+					fs, isCall := x.Call.Args[0].(*ssa.Call)
+					if !isCall || !isMeth(staticCallee(&fs.Call), cobraPkg, "Command", "Flags") || len(fs.Call.Args) == 0 {
+						ok = false
+						return
+					}
+					cmd := c.commandOf(fs.Call.Args[0], 0)
+					if cmd == nil || cmd.Name == "" || (cmd.Entries["Run"] == nil && cmd.Entries["RunE"] == nil) {
+						ok = false
+						return
+					}
+					for _, n := range commands {
+						if n == cmd.Name {
+							ok = false
+							return
+						}
+					}
+					if owner != "" && owner != cmd.Name {
+						ok = false
+						return
+					}
+					owner = cmd.Name
+					continue
+				}
+				// a pure step on the way: a method of the value itself (time.Time.Year), strconv / fmt formatting
+				pure := (x.Call.Args[0] == v && x.Call.Signature().Recv() != nil && objPkgPath(f) == "time") ||
+					objPkgPath(f) == "strconv" || (objPkgPath(f) == "fmt" && strings.HasPrefix(f.Name(), "Sprint"))
+				if !pure {
+					ok = false
+					return
+				}
+				walk(x, d+1)
+			default:
+				// the variadic slot of fmt.Sprint*: interface conversion stored into the argument array
+				if mi, isMI := r.(*ssa.MakeInterface); isMI {
+					uses++
+					walk(mi, d+1)
+					continue
+				}
+				if st, isSt := r.(*ssa.Store); isSt && st.Val == v {
+					if ia, isIA := st.Addr.(*ssa.IndexAddr); isIA {
+						if al, isAl := ia.X.(*ssa.Alloc); isAl && al.Comment == "varargs" {
+							uses++
+							for _, r2 := range referrers(al) {
+								if sl, isSl := r2.(*ssa.Slice); isSl {
+									walk(sl, d+1)
+								}
+							}
+							continue
+						}
+					}
+				}
+				ok = false
+				return
+			}
+		}
+		if uses == 0 {
+			// a value nobody looks at decides nothing either way; but the call itself must end somewhere
+			if v == ssa.Value(call) {
+				ok = false
+			}
+		}
+	}
+	walk(call, 0)
+	if !ok {
+		return ""
+	}
+	return owner
+}
+
+// commandOf: the command a *cobra.Command value is: the literal itself, the result of the constructor
+// that returns the literal, or a package variable that is only ever assigned such a value.
+func (c *Ctx) commandOf(v ssa.Value, d int) *Command {
+	if d > 4 {
+		return nil
+	}
+	switch x := stripConv(v).(type) {
+	case *ssa.Alloc:
+		for _, cmd := range c.Commands().Commands {
+			if cmd.Alloc == x {
+				return cmd
+			}
+		}
+	case *ssa.Call:
+		F := staticFn(&x.Call)
+		if F == nil || !c.P.IsRepoFn(F) {
+			return nil
+		}
+		var out *Command
+		bad := false
+		allInstrs(F, func(in ssa.Instruction) {
+			if r, ok := in.(*ssa.Return); ok && len(r.Results) > 0 {
+				got := c.commandOf(r.Results[0], d+1)
+				if got == nil || (out != nil && got != out) {
+					bad = true
+				}
+				out = got
+			}
+		})
+		if bad {
+			return nil
+		}
+		return out
+	case *ssa.UnOp:
+		g, ok := x.X.(*ssa.Global)
+		if !ok || x.Op != token.MUL {
+			return nil
+		}
+		var out *Command
+		bad := false
+		n := 0
+		for _, fn := range c.P.RepoFns {
+			allInstrs(fn, func(in ssa.Instruction) {
+				st, ok := in.(*ssa.Store)
+				if !ok || st.Addr != ssa.Value(g) {
+					return
+				}
+				n++
+				got := c.commandOf(st.Val, d+1)
+				if got == nil || (out != nil && got != out) {
+					bad = true
+				}
+				out = got
+			})
+		}
+		if bad || n == 0 {
+			return nil
+		}
+		return out
+	}
+	return nil
+}
+
 // rootAlloc follows FieldAddr/IndexAddr chains to the Alloc they address.
 func rootAlloc(addr ssa.Value) *ssa.Alloc {
 	for i := 0; i < 8; i++ {
@@ -1077,4 +1387,27 @@ func rootAlloc(addr ssa.Value) *ssa.Alloc {
 		}
 	}
 	return nil
+}
+
+// derivesFrom: src is v or one of the values v is computed from (operands, d levels).
+func derivesFrom(v, src ssa.Value, d int) bool {
+	if v == src {
+		return true
+	}
+	if d <= 0 {
+		return false
+	}
+	in, ok := v.(ssa.Instruction)
+	if !ok {
+		return false
+	}
+	if _, isPhi := v.(*ssa.Phi); isPhi {
+		return false
+	}
+	for _, op := range in.Operands(nil) {
+		if op != nil && *op != nil && derivesFrom(*op, src, d-1) {
+			return true
+		}
+	}
+	return false
 }
